@@ -24,7 +24,7 @@ GOOD = ("O", "E", "N", "U", "W")
 
 def run_part(ck):
     ck.rule += (" | vendor: NXP Type 2 products x layouts (factory control TLVs, NULL TLV padding, old message in either "
-                "length format) x messages {0, 1, 254, 255, 300, capacity} x every cut point (sampled above 40); FeliCa Lite / "
+                "length format) x messages {0, 1, 254, 255, 300, capacity} x every cut point (quick tier: one message per product, cut points sampled above 16; thorough: above 80); FeliCa Lite / "
                 "Lite-S x {plain, authenticated} x messages {1, 17, 40, 208} x fault (lost | late) on every Write command x "
                 "follow-up assignment (same | empty | other | longer), sampled second faults")
     ck.trusted += ["harness/sims/c01_vendor.py (product probes in front of the Type 2 simulator), harness/sims/auth_felica.py "
@@ -49,7 +49,7 @@ def nxp_cuts(ck):
     rng = ck.rng
     model = Model("drv_t12")
     jobs = []
-    for product in PRODUCTS:
+    for pi, product in enumerate(PRODUCTS):
         name = product[0]
         for rep in range(3 if ck.thorough else 1):
             lay = None
@@ -65,8 +65,9 @@ def nxp_cuts(ck):
             free = lay["free"]
             cap = free - (4 if free > 256 else 2)
             lens = sorted(set(n for n in [0, 1, 254, 255, 300, cap] if 0 <= n <= cap))
-            if not ck.thorough:
-                lens = sorted(set([rng.choice(lens[:2]), lens[-1] if cap < 400 else rng.choice([255, 300])]))
+            if not ck.thorough:   # one message per product: short ones and 3-byte length fields alternate
+                big = [n for n in lens if n >= 255 and n <= 300] or [lens[-1]]
+                lens = [rng.choice(big)] if (pi + ck.seed) % 2 else [rng.choice(lens[:3])]
             for n in lens:
                 data = bytes(rng.randrange(1, 256) for _ in range(n))
                 replay = {"product": name, "memory": base.hex(), "data": data.hex(),
@@ -90,9 +91,9 @@ def nxp_cuts(ck):
                 ncmd = len(cmds)
                 classes = []
                 ks = list(range(ncmd + 1))
-                sampled = ncmd > 40 and not ck.thorough
+                sampled = ncmd > (80 if ck.thorough else 16)
                 if sampled:
-                    ks = sorted(set([0, 1, 2, ncmd - 2, ncmd - 1, ncmd] + rng.sample(range(ncmd + 1), 12)))
+                    ks = sorted(set([0, 1, 2, ncmd - 2, ncmd - 1, ncmd] + rng.sample(range(ncmd + 1), 40 if ck.thorough else 8)))
                 for k in ks:
                     s = VT2(base, product)
                     d = nfc.tag.activate(s, s.target()).ndef
